@@ -419,6 +419,7 @@ type c12Catalog struct {
 	exts, optExts, pkgs                                        []string
 	rpcReq, rpcResp, mapVals, optTypes, anyPayloads, extendees []string
 	imported                                                   []string
+	soleUsers                                                  []string // top-level messages that are the only user of an imported file
 	fieldTypes                                                 []string
 	all                                                        []string
 	roles                                                      map[string][]string
@@ -560,6 +561,52 @@ func c12MakeCatalog(ix *c12Index) *c12Catalog {
 		}
 	}
 	sort.Strings(cat.anyPayloads)
+	// the only top-level element of the targets that refers to an imported (non-WKT) file
+	users := map[string]map[string]bool{}
+	topLevel := func(n string) string {
+		for ix.els[n] != nil && ix.els[n].parent != "" {
+			n = ix.els[n].parent
+		}
+		return n
+	}
+	use := func(user, typ string) {
+		t := ix.els[c12Trim(typ)]
+		if t == nil || !ix.isImport[t.file] || strings.HasPrefix(t.full, "google.protobuf.") {
+			return
+		}
+		if users[t.file] == nil {
+			users[t.file] = map[string]bool{}
+		}
+		users[t.file][topLevel(user)] = true
+	}
+	for _, n := range names {
+		el := ix.els[n]
+		if ix.isImport[el.file] {
+			continue
+		}
+		switch el.kind {
+		case "message":
+			for _, fl := range el.msg.GetField() {
+				use(n, fl.GetTypeName())
+			}
+		case "method":
+			use(n, el.mth.GetInputType())
+			use(n, el.mth.GetOutputType())
+		case "extension":
+			use(n, el.ext.GetExtendee())
+			use(n, el.ext.GetTypeName())
+		}
+	}
+	for _, f := range sortedKeys(users) {
+		if len(users[f]) == 1 {
+			for u := range users[f] {
+				if el := ix.els[u]; el != nil && el.kind == "message" {
+					uniq(&cat.soleUsers, u)
+					role(u, "sole-user-of-imported-file")
+				}
+			}
+		}
+	}
 	return cat
 }
 
@@ -665,6 +712,13 @@ func c12MakeFilters(r *rand.Rand, ix *c12Index, n int) []*c12Filter {
 		func() *c12Filter { return mk(nil, one(pk(cat.enums))) },
 		func() *c12Filter { return mk(nil, one(pk(cat.anyPayloads))) },
 		func() *c12Filter { return mk(nil, one(pk(cat.imported))) },
+		func() *c12Filter {
+			f := mk(nil, one(pk(cat.soleUsers)))
+			if f != nil {
+				f.knownExt = true
+			}
+			return f
+		},
 		func() *c12Filter { return mk(nil, one(pk(cat.exts))) },
 		func() *c12Filter { return mk(nil, one(pk(cat.groups))) },
 		func() *c12Filter { return mk(nil, one(pk(cat.entries))) },
@@ -966,7 +1020,7 @@ func init() {
 		Cases: c12Cases,
 		Run:   c12Run,
 		Required: []string{"images", "filters_ok", "legal_errors", "filters_exclude-only", "filters_include-only", "filters_mixed", "filters_in_place", "filters_copying",
-			"exclude_only_naming_rpc_request_type", "exclude_only_naming_rpc_response_type", "exclude_only_naming_map_value_type", "images_with_typeless_file",
+			"exclude_only_naming_rpc_request_type", "exclude_only_naming_rpc_response_type", "exclude_only_naming_map_value_type", "images_with_typeless_file", "image_feature:dep-file-behind-known-extension:unused-import", "image_feature:dep-file-behind-known-extension:sole-user",
 			"idempotence_checked", "mode_pairs_compared", "witness_filters", "comment_locations_compared", "cli_samples_build", "cli_samples_generate-flags", "cli_samples_generate-plugin-types",
 			"effect:field-of-excluded-type-dropped", "effect:method-dropped", "effect:namespace-only-enclosing-message", "effect:file-dropped", "effect:public-imports-flattened", "effect:map-field-dropped"},
 	})
